@@ -58,8 +58,9 @@ def probe_locations(code, rng, k=10):
     return locs
 
 
-def class_streams(ctx, cls, supported, family_box, outside, larger_box, salt):
+def class_streams(ctx, cls, supported, family_box, outside, larger_box, salt, rank_family=False):
     import panqec.codes as C
+    from harness.lat_cubic3d import rank_post
     klass = getattr(C, cls)
     rng = ctx.np_rng(salt + 1)
     coords = Stream(f'lat-{cls}-coordinates-logicals')
@@ -67,6 +68,7 @@ def class_streams(ctx, cls, supported, family_box, outside, larger_box, salt):
     axis = Stream(f'lat-{cls}-axis-type')
     deform = Stream(f'lat-{cls}-get_deformation')
     errs = Stream(f'lat-{cls}-malformed-probes')
+    rank = Stream(f'lat-{cls}-rank-family', post=rank_post(klass))
     assert list(klass.deformation_names) == ['Checkerboard XZZX'], klass.deformation_names
     for size, tag in size_plan(ctx, supported, family_box, outside, larger_box, salt):
         pre = f'lat {cls} ' + ' '.join(map(str, size)) + ' '
@@ -84,6 +86,11 @@ def class_streams(ctx, cls, supported, family_box, outside, larger_box, salt):
         coords.add(pre + 'logz', guarded(lambda: ops_str(code.get_logicals_z())), dict(desc, what='get_logicals_z'), tag=tag)
         coords.add(pre + 'n', guarded(lambda: str(int(code.n))), dict(desc, what='n'), nontrivial=False)
         coords.add(pre + 'k', guarded(lambda: str(int(code.k))), dict(desc, what='k'), nontrivial=False)
+        if rank_family and supported(size):
+            nk = guarded(lambda: code.n - code.k)
+            rank.add(pre + 'rankfamily', f'members {nk} rank {nk}',
+                     dict(desc, what='independent family of n-k generators (theorem generators_independent) '
+                          'evaluated on stabilizer_matrix'), tag=tag)
         for loc in ss:
             d = dict(desc, location=list(map(int, loc)))
             stab.add(pre + 'stab ' + cstr(loc), guarded(lambda: op_str(code.get_stabilizer(loc)), EXC), d, tag=tag)
@@ -123,4 +130,4 @@ def class_streams(ctx, cls, supported, family_box, outside, larger_box, salt):
                 errs.add(pre + 'deform ' + cstr(loc) + ' ' + nm,
                          guarded(lambda: _deform_str(code.get_deformation(loc, nm)), EXC), dict(d, name=nm),
                          nontrivial=False, tag='deform-probe')
-    return [s.run() for s in (coords, stab, axis, deform, errs)]
+    return [s.run() for s in (coords, stab, axis, deform, errs) + ((rank,) if rank_family else ())]
